@@ -51,6 +51,9 @@ type adapter struct {
 	ncfg  int
 }
 
+// maxAlpha is the largest key/value alphabet a run may draw (the observers look at all of it).
+const maxAlpha = 8
+
 func errStr(err error) string {
 	if err != nil {
 		return "err"
@@ -58,8 +61,8 @@ func errStr(err error) string {
 	return "ok"
 }
 
-var trieKeys = []string{"a", "ab", "b", "abc"}
-var cacheKeys = []string{"k0", "k1", "k2", "k3"}
+var trieKeys = []string{"a", "ab", "b", "abc", "abd", "ba", "c", "abcd"}
+var cacheKeys = []string{"k0", "k1", "k2", "k3", "k4", "k5", "k6", "k7"}
 
 func tk(i int) string { return trieKeys[((i%len(trieKeys))+len(trieKeys))%len(trieKeys)] }
 func ck(i int) string { return cacheKeys[((i%len(cacheKeys))+len(cacheKeys))%len(cacheKeys)] }
@@ -234,7 +237,7 @@ func (x *bstInst) call(o OpCall) string {
 
 func (x *bstInst) observe() []string {
 	out := []string{"Size=" + fmt.Sprint(x.b.Size())}
-	for k := 0; k < 4; k++ {
+	for k := 0; k <= maxAlpha; k++ {
 		it, err := x.b.Get(k)
 		out = append(out, fmt.Sprintf("Get%d=%d,%d,%s", k, it.Key, it.Val, errStr(err)))
 	}
@@ -386,7 +389,7 @@ func (x *queueInst) call(o OpCall) string {
 
 func (x *queueInst) observe() []string {
 	out := []string{"Size=" + fmt.Sprint(x.f().Size()), "Peek=" + fmt.Sprint(x.f().Peek())}
-	for v := 1; v <= 3; v++ {
+	for v := 1; v <= maxAlpha; v++ {
 		out = append(out, fmt.Sprintf("Search%d=%v", v, x.f().Search(v)))
 	}
 	var d []string
@@ -457,7 +460,7 @@ func (x *stackInst) call(o OpCall) string {
 
 func (x *stackInst) observe() []string {
 	out := []string{"Size=" + fmt.Sprint(x.s.Size()), "Peek=" + fmt.Sprint(x.s.Peek())}
-	for v := 1; v <= 3; v++ {
+	for v := 1; v <= maxAlpha; v++ {
 		out = append(out, fmt.Sprintf("Search%d=%v", v, x.s.Search(v)))
 	}
 	var d []string
@@ -499,23 +502,49 @@ var lstackAdapter = adapter{name: "lstack", alpha: 3, ncfg: 1, ops: stackOps,
 		return &stackInst{s: s}
 	}}
 
-// ---------------------------------------------------------------- cache (time-free use: C01/C02)
+// ---------------------------------------------------------------- cache (C01/C02)
+//
+// cfg bits: 1 = janitor goroutine ticking every 10 ms of simulated time; 2 = timed: default
+// expiration 20 ms and the calls store under a mix of durations (none / default / 5 ms), so that
+// live, expired-but-unpurged and never-expiring entries coexist; 4 = pre-aged: 7 ms of simulated
+// time pass after the initial content is stored, so its 5 ms entries are expired and unpurged
+// when the concurrent calls start. A "Tick" pseudo-call sleeps 10 ms of simulated time.
+
+const (
+	cacheJanitor = 1
+	cacheTimed   = 2
+	cachePreAged = 4
+)
 
 type cacheInst struct {
-	c *cache.Cache[string, int]
+	c     *cache.Cache[string, int]
+	timed bool
+}
+
+func (x *cacheInst) dur(b int) time.Duration {
+	if !x.timed {
+		return cache.NoExpiration
+	}
+	switch ((b % 3) + 3) % 3 {
+	case 0:
+		return cache.NoExpiration
+	case 1:
+		return cache.DefaultExpiration
+	}
+	return 5 * time.Millisecond
 }
 
 func (x *cacheInst) call(o OpCall) string {
 	switch o.Op {
 	case "Set":
-		return errStr(x.c.Set(ck(o.A), o.B, cache.NoExpiration))
+		return errStr(x.c.Set(ck(o.A), o.B, x.dur(o.B)))
 	case "SetDefault":
 		return errStr(x.c.SetDefault(ck(o.A), o.B))
 	case "Get":
 		it, err := x.c.Get(ck(o.A))
 		return fmt.Sprint(it.Val(), errStr(err))
 	case "Update":
-		return errStr(x.c.Update(ck(o.A), o.B, cache.NoExpiration))
+		return errStr(x.c.Update(ck(o.A), o.B, x.dur(o.B)))
 	case "Delete":
 		return errStr(x.c.Delete(ck(o.A)))
 	case "DeleteExpired":
@@ -528,7 +557,7 @@ func (x *cacheInst) call(o OpCall) string {
 	case "Count":
 		return fmt.Sprint(x.c.Count())
 	case "MapToCache":
-		return errStr(x.c.MapToCache(map[string]int{ck(o.A): o.B}, cache.NoExpiration))
+		return errStr(x.c.MapToCache(map[string]int{ck(o.A): o.B}, x.dur(o.B)))
 	case "IsExpired":
 		return fmt.Sprint(x.c.IsExpired(ck(o.A)))
 	}
@@ -539,8 +568,9 @@ func (x *cacheInst) observe() []string {
 	out := []string{"Count=" + fmt.Sprint(x.c.Count()), "List=" + consumeCacheMap(x.c.List())}
 	for i := range cacheKeys {
 		it, err := x.c.Get(ck(i))
-		out = append(out, fmt.Sprintf("Get%s=%d,%s", ck(i), it.Val(), errStr(err)))
+		out = append(out, fmt.Sprintf("Get%s=%d,%s,%v", ck(i), it.Val(), errStr(err), x.c.IsExpired(ck(i))))
 	}
+	out = append(out, "CountAfterGets="+fmt.Sprint(x.c.Count()))
 	x.c.Update("zz", 5, cache.NoExpiration)
 	it, err := x.c.Get("zz")
 	out = append(out, fmt.Sprintf("AfterUpdate=%d,%s", it.Val(), errStr(err)))
@@ -550,25 +580,30 @@ func (x *cacheInst) observe() []string {
 var cacheAdapter = adapter{
 	name:  "cache",
 	alpha: 3,
-	ncfg:  2,
+	ncfg:  8,
 	ops: []opDesc{
 		{name: "Set", nargs: 2, single: true}, {name: "SetDefault", nargs: 2}, {name: "Get", nargs: 1, single: true},
 		{name: "Update", nargs: 2, single: true}, {name: "Delete", nargs: 1, single: true}, {name: "DeleteExpired"},
 		{name: "Flush"}, {name: "List"}, {name: "Count", single: true}, {name: "MapToCache", nargs: 2}, {name: "IsExpired", nargs: 1},
 	},
 	build: func(init []int, cfg int) instance {
-		// cfg 0: no janitor; cfg 1: janitor goroutine ticking every 10 ms of simulated time (a
-		// "Tick" pseudo-call lets a client sleep over a tick so that the janitor becomes runnable)
-		var c *cache.Cache[string, int]
-		if cfg%2 == 0 {
-			c = cache.New[string, int](cache.NoExpiration, 0)
-		} else {
-			c = cache.New[string, int](cache.NoExpiration, 10*time.Millisecond)
+		exp := time.Duration(cache.NoExpiration)
+		if cfg&cacheTimed != 0 {
+			exp = 20 * time.Millisecond
 		}
+		var cl time.Duration
+		if cfg&cacheJanitor != 0 {
+			cl = 10 * time.Millisecond
+		}
+		x := &cacheInst{c: cache.New[string, int](exp, cl), timed: cfg&cacheTimed != 0}
 		for i, v := range init {
-			c.Update(ck(v), 900+i, cache.NoExpiration)
+			x.c.Update(ck(v), 900+i, x.dur(i+2))
 		}
-		return &cacheInst{c: c}
+		if cfg&cachePreAged != 0 && cfg&cacheTimed != 0 {
+			// only ever executed inside a bubble (see timedCfg): simulated, not real, time
+			time.Sleep(7 * time.Millisecond)
+		}
+		return x
 	},
 }
 
